@@ -1667,12 +1667,15 @@ def _check_bad_rsp(run, world, mod):
                 starts = [x for x in hcfg.reachable if x.kind == "except"
                           and x.ast is n]
                 okh = bool(starts)
-                seen_, stack_ = set(), list(starts)
+                # (sent: the local the handler has marked with a sentinel -
+                # `value = _UNREADABLE` - and the sentinel; an identity test
+                # of that local with that sentinel is then decided)
+                seen_, stack_ = set(), [(x, None) for x in starts]
                 while stack_ and okh:
-                    x = stack_.pop()
-                    if x.id in seen_:
+                    x, sent = stack_.pop()
+                    if (x.id, sent) in seen_:
                         continue
-                    seen_.add(x.id)
+                    seen_.add((x.id, sent))
                     if x.kind == "stmt" and isinstance(x.ast, ast.Return):
                         okh = isinstance(x.ast.value, ast.Constant) and \
                             x.ast.value.value is True
@@ -1680,7 +1683,28 @@ def _check_bad_rsp(run, world, mod):
                     if x is hcfg.exit:
                         okh = False
                         break
-                    stack_ += [m_ for (l_, m_) in x.succ if l_ != "exc"]
+                    if x.kind == "stmt" and isinstance(
+                            x.ast, ast.Assign) and len(
+                                x.ast.targets) == 1 and isinstance(
+                                    x.ast.targets[0], ast.Name):
+                        tn_ = x.ast.targets[0].id
+                        if isinstance(x.ast.value, ast.Name) and \
+                                world.lookup(HLP, x.ast.value.id) is not None:
+                            sent = (tn_, x.ast.value.id)
+                        elif sent is not None and sent[0] == tn_:
+                            sent = None
+                    only = None
+                    if x.kind == "test" and sent is not None and isinstance(
+                            x.ast, ast.Compare) and len(
+                                x.ast.ops) == 1 and isinstance(
+                                    x.ast.ops[0], (ast.Is, ast.IsNot)) and \
+                            {unparse(x.ast.left), unparse(
+                                x.ast.comparators[0])} == set(sent):
+                        only = "T" if isinstance(x.ast.ops[0], ast.Is) \
+                            else "F"
+                    stack_ += [(m_, sent) for (l_, m_) in x.succ
+                               if l_ != "exc" and (only is None or
+                                                   l_ == only)]
                 if okh:
                     checks["exceptions"] = True
     for k, v in checks.items():
